@@ -73,6 +73,12 @@ for d in diffs:
     report.append(rec)
     out = os.path.join(ROOT, "seeded", rec["id"])
     os.makedirs(out, exist_ok=True)
+    if os.path.exists(os.path.join(out, "meta.json")):
+        old = json.load(open(os.path.join(out, "meta.json")))
+        if "existing_suite_with_batch_applied" in old:
+            rec["existing_suite_with_batch_applied"] = old["existing_suite_with_batch_applied"]
+        # keep the history of earlier confirmations (before the checks were strengthened)
+        rec["earlier_runs"] = old.get("earlier_runs", []) + [{"checks": {c: v.get("caught") for c, v in old.get("checks", {}).items()}}]
     shutil.copy(d, os.path.join(out, "patch.diff"))
     if os.path.isdir(os.path.join(sdir, "demo%s" % n)):
         shutil.copytree(os.path.join(sdir, "demo%s" % n), os.path.join(out, "demo"), dirs_exist_ok=True)
